@@ -146,3 +146,26 @@ theorem C02_headroom_refuted : ¬ C02_headroom_statement := by
   decide +kernel
 
 theorem C02_full_refuted : ¬ C02_statement := fun h => C02_group_refuted h.2.1
+
+/-! ### calls on a long-lived instance (the `BatteryManager` keeps ONE algorithm object) -/
+
+/-- The class holds no per-call state (extracted from the source: `__init__` assigns only `_distributor_exponent`,
+from its parameter; no method writes to `self`, to a global or to a cache), and therefore the k-th result of any
+sequence of calls on one instance is the stateless `distribute` of the k-th arguments: every theorem above applies to
+each call with the data given to THAT call, whatever was requested before. -/
+theorem C02_history_free (a : Instance) (calls : List Call) (k : Nat) :
+    Extracted.Dist.perCallState = [] ∧ Extracted.Dist.instanceAttrs = ["_distributor_exponent"] ∧
+    (a.run calls)[k]? = calls[k]?.map (fun c => distribute (a.input c)) := by
+  refine ⟨rfl, rfl, ?_⟩
+  induction calls generalizing k with
+  | nil => simp [Instance.run]
+  | cons c cs ih =>
+    cases k with
+    | zero => simp [Instance.run, Instance.call]
+    | succ k => simpa [Instance.run, Instance.call] using ih k
+
+/-- non-vacuity: two calls on one instance (the regular case, then its supply-side twin) give the two stateless results. -/
+example : (Instance.mk regular.exp).run [⟨regular.power, regular.groups⟩, ⟨regularSupply.power, regularSupply.groups⟩]
+    = [distribute { regular with }, distribute { regularSupply with exp := regular.exp }] := by
+  simp [Instance.run, Instance.call, Instance.input]
+
